@@ -193,6 +193,6 @@ def size(ast) -> int:
 def vsize(v) -> int:
     if isinstance(v, (list, tuple)):
         return 1 + sum(vsize(x) for x in v)
-    if isinstance(v, dict) or type(v).__name__ == 'mappingproxy':
+    if isinstance(v, values.MAPS):
         return 1 + sum(vsize(x) for x in v.values())
     return 1
